@@ -202,7 +202,7 @@ package alephium
 //@   nopanic
 
 //@ func (w *Watcher) handleConfirmedEvents(logger *zap.Logger, confirmed []*ConfirmedEvent) (err error)
-//@   props C08
+//@   props C08 C09
 //@   requires w != nil && (forall i in 0..len(confirmed) :: confirmed[i] != nil && confirmed[i].event != nil && confirmed[i].event.msg != nil && confirmed[i].event.ContractEvent != nil && confirmed[i].header != nil && confirmed[i].header.Timestamp >= 0)
 //@   modifies chan:*common.MessagePublication, fresh common.MessagePublication.*
 //@   at [w.msgChan <- e.event.msg.toMessagePublication(e.header)]: assert [only-token-bridge-sender] e.event.msg.senderId == w.tokenBridgeContractId && e.event.EventIndex == 0
@@ -222,7 +222,7 @@ package alephium
 // leaves pendingEvents (forwarded or dropped) - never both, so the polling path forwards a
 // fetched event at most once.
 //@ func (w *Watcher) handleEvents_(ctx context.Context, logger *zap.Logger, isBlockInMainChain func(string) (*bool, error), getBlockHeader func(string) (*sdk.BlockHeaderEntry, error), handler func(*zap.Logger, []*ConfirmedEvent) error, errC chan<- error, eventsC <-chan []*UnconfirmedEvent, heightC <-chan int32)
-//@   props C08
+//@   props C08 C09
 //@   requires w != nil && w.blockPollerEnabled != nil
 //@   modifies *
 //@   fnspec isBlockInMainChain: nonnil-on-success
@@ -247,7 +247,7 @@ package alephium
 
 //@ pred isAttestPayload(p []byte) = len(p) > 0 && p[0] == 2
 //@ func (w *Watcher) toUnconfirmedEvent(event *sdk.ContractEvent) (u *UnconfirmedEvent, err error)
-//@   props C08 C09
+//@   props C08 C09 C11
 //@   requires event != nil
 //@   ensures [accept-iff-well-formed] err == nil <==> event.EventIndex == 0 && fitsMsg(event.Fields)
 //@   ensures [decoded] err == nil ==> u != nil && fresh(u) && u.ContractEvent == event && u.msg != nil && fresh(u.msg) && u.msg.payload == bytevecval(event.Fields[4])
